@@ -247,6 +247,18 @@ impl<'a> Fold<Diagnostic> for TypeResolver<'a> {
         node.recurse_fold(self)
     }
 
+    fn fold_enumerated_specification_kind(
+        &mut self,
+        node: EnumeratedSpecificationKind,
+    ) -> Result<EnumeratedSpecificationKind, Diagnostic> {
+        // An enumeration that renames another one and gives a default value
+        // (name : base := value) names its base type.
+        if let EnumeratedSpecificationKind::TypeName(base) = &node {
+            self.require_known_type(base, "Enumeration base type");
+        }
+        node.recurse_fold(self)
+    }
+
     fn fold_structure_initialization_declaration(
         &mut self,
         node: StructureInitializationDeclaration,
